@@ -1248,8 +1248,11 @@ def _numbers(h: Harness, spec: dict[str, Any]) -> None:
     texts = int_texts(rng, n) + sci_texts(rng, n) + float_texts(rng, n)
     per_len = 1 if spec["tier"] == "quick" else 6
     lrng = random.Random(f"{spec['seed']}:longnum")  # same list in every shard; split by index
-    long_int = long_int_exp_texts(lrng, per_len)
-    long_float = long_float_texts(lrng, per_len)
+    long_int: list[str] = []
+    long_float: list[str] = []
+    for _ in range(1 if spec["tier"] == "quick" else 8):
+        long_int += long_int_exp_texts(lrng, per_len)
+        long_float += long_float_texts(lrng, per_len)
     for t in long_int + long_float:
         h.ctx.mx("max:mantissa_digits", sum(c.isdigit() for c in t.lower().split("e")[0]))
     h.ctx.counters["long_mantissa_literals"] = 0
@@ -1481,7 +1484,7 @@ def floors(tier: str) -> dict[str, int]:
     return {
         "evaluations": 500_000 if q else 10_000_000,
         "string_evaluations": 450_000 if q else 8_000_000,
-        "number_evaluations": 80_000 if q else 500_000,
+        "number_evaluations": 80_000 if q else 1_000_000,
         "json_evaluations": 15_000 if q else 1_000_000,
         "distinct_nontrivial": 350_000 if q else 2_000_000,
         # every string site, number site and json variant must have been exercised
@@ -1490,7 +1493,7 @@ def floors(tier: str) -> dict[str, int]:
         "set:codepoints": 280 if q else 1_500,
         "adversarial_strings": 1_464,  # = all strings of length <= 3 over HOSTILE
         "random_strings": 7_000 if q else 600_000,
-        "long_mantissa_literals": 2_000 if q else 5_000,
+        "long_mantissa_literals": 2_000 if q else 20_000,
         "max:mantissa_digits": 60,
         "limit_probes_within": 250,
         "limit_probes_refused_with_LiquidError": 300,
